@@ -48,8 +48,29 @@ pub fn run(ctx: &Ctx) -> Report {
 	let (bn, rn) = ctx.pick((2usize, 3usize), (3usize, 4usize));
 	for f in Family::BOTH {
 		let fr = FamRefs::new(refs, f);
-		let bs = bases(f, &fr, bn);
-		let rs = refs_domain(f, &fr, rn);
+		let mut bs = bases(f, &fr, bn);
+		let mut rs = refs_domain(f, &fr, rn);
+		// beyond the 16-segment / 512-byte inline buffers
+		for lp in domains::long_paths(true) {
+			for pre in ["s://h", "s:"] {
+				let mut t = pre.as_bytes().to_vec();
+				t.extend_from_slice(&lp);
+				bs.push(t);
+			}
+		}
+		for lp in domains::long_paths(false).into_iter().chain(domains::long_paths(true)) {
+			rs.push(lp.clone());
+			let mut t = b"../../".to_vec();
+			t.extend_from_slice(&lp);
+			if !lp.starts_with(b"/") {
+				rs.push(t);
+			}
+			let mut u = b"t:".to_vec();
+			u.extend_from_slice(&lp);
+			rs.push(u);
+		}
+		bs.retain(|t| fr.valid(Kind::Ri, t));
+		rs.retain(|t| fr.valid(Kind::RiRef, t));
 		total.count(&format!("{}_bases", f.name()), bs.len() as u64);
 		total.count(&format!("{}_references", f.name()), rs.len() as u64);
 		let shards = 128usize;
